@@ -33,7 +33,7 @@ def pick_name(rng, used, fancy=0.3, maxlen=40, allow_nl=False):
             nm = rng.choice("abcxyzAZ09_")
         else:
             nm = rng.choice(["f", "file", "data", "lib", "x", "conf", "a", "zz", "Makefile", "img"]) + "%d" % rng.randrange(1000) + rng.choice(["", "", ".txt", ".so", ".so.1", ".c"])
-        if allow_nl and rng.random() < 0.04:
+        if allow_nl and rng.random() < 0.004:
             nm += "\nnl"
         nm = nm[:maxlen]
         if nm in ("", ".", "..") or "/" in nm or "\0" in nm or nm in used:
@@ -457,6 +457,20 @@ def ids_case(rng, n, base=0, comp="gzip", split_gid=False):
                 "d": {"uid": base, "gid": base} if base else None})
 
 
+def ids_limit_case(rng, n, comp="lz4", first=0, name=None, stride=1):
+    """n distinct ids, two new ones per entry (uid = 2i, gid = 2i+1): the id table reaches n with n/2 pipes; spread over 256
+    directories (a single directory of 65k entries costs minutes in the packer's sorted insert, not in the id table).
+    The root and the implicit directories own id `first` (= the first entry's uid)."""
+    ids = [first + k * stride for k in range(n)]
+    lines = []
+    for i in range((n + 1) // 2):
+        u = ids[2 * i]
+        g = ids[2 * i + 1] if 2 * i + 1 < n else ids[0]
+        lines.append({"t": "pipe", "p": "/i/%02x/p%d" % ((i >> 7) & 0xff, i), "m": 0o644, "u": u, "g": g})
+    return case("ids", name or "ids-limit-%d" % n, {"mode": "packfile", "fs": [], "lines": lines, "xa": []},
+                {"comp": comp, "bs": 4096, "d": {"uid": first, "gid": first} if first else None})
+
+
 def xattrsets_case(rng, n, comp="gzip", shared=True):
     lines, xa = [], []
     longv = b"a-long-value-shared-by-several-keys-and-sets-0123456789"
@@ -578,6 +592,22 @@ def hardlink_case(rng, via, comp, nohl=False):
             opts["H"] = True
         return case("hardlinks", "hardlinks-packdir%s" % ("-H" if nohl else ""), {"mode": "packdir", "fs": fs, "xa": []}, opts)
     fs = [{"p": "src", "t": "dir", "m": 0o755}, {"p": "src/f", "t": "file", "c": [["t", 5000, 1]]}, {"p": "src/g", "t": "file", "c": [["r", 9000, 2]]}]
+    if via == "packfile-first":
+        # every link line precedes its target; groups of 2..5 names for every linkable type; chains of three links; links in
+        # other directories than the target, in implicit and explicit ones; a target that carries xattrs
+        lk = lambda p, to: {"t": "link", "p": p, "m": rng.choice([0, 0o777, 0o644]), "u": rng.choice([0, 7]), "g": rng.choice([0, 9]), "to": to}
+        L = [lk("/0/first", "/m/file"), lk("/z/chain3", "/z/chain2"), lk("/z/chain2", "/a/chain1"), lk("/a/chain1", "/m/./file"), lk("/m/zz", "m//file"),
+             lk("/l_sl", "/m/sl"), lk("/0/l_sl2", "/l_sl"), lk("/l_chr", "/m/chr"), lk("/l_blk", "/m/blk"), lk("/0/l_fifo", "/m/fifo"), lk("/l_sock", "/m/sock"),
+             lk("/a/l_empty", "/m/empty"), lk("/a/l_big", "/m/big"), lk("/a/l_big2", "/a/l_big"),
+             {"t": "dir", "p": "/a", "m": 0o700, "u": 1, "g": 1},
+             {"t": "file", "p": "/m/file", "m": 0o4755, "u": 1, "g": 2, "loc": "src/f"}, {"t": "file", "p": "/m/big", "m": 0o600, "u": 3, "g": 3, "loc": "src/g"},
+             {"t": "file", "p": "/m/empty", "m": 0o644, "u": 0, "g": 0, "loc": "src/e"}, {"t": "slink", "p": "/m/sl", "m": 0o777, "u": 4, "g": 4, "tg": "../a"},
+             {"t": "nod", "p": "/m/chr", "m": 0o666, "u": 0, "g": 5, "dt": "c", "maj": 1, "min": 3}, {"t": "nod", "p": "/m/blk", "m": 0o660, "u": 0, "g": 6, "dt": "b", "maj": 8, "min": 0},
+             {"t": "pipe", "p": "/m/fifo", "m": 0o640, "u": 7, "g": 7}, {"t": "sock", "p": "/m/sock", "m": 0o755, "u": 8, "g": 8},
+             {"t": "file", "p": "/single", "m": 0o644, "u": 0, "g": 0, "loc": "src/f"}]
+        fs.append({"p": "src/e", "t": "file", "c": []})
+        xa = [["m/file", [["user.linked", b"yes".hex(), "text"], ["trusted.t", bytes(range(20)).hex(), "hex"]]], ["m/fifo", [["trusted.f", b"1".hex(), "hex"]]]]
+        return case("hardlinks", "hardlinks-link-lines-first", {"mode": "packfile", "fs": fs, "lines": L, "xa": xa}, {"comp": comp, "bs": 4096, "e": True})
     L = [{"t": "file", "p": "/a/file", "m": 0o644, "u": 1, "g": 2, "loc": "src/f"}, {"t": "file", "p": "/z/other", "m": 0o600, "u": 3, "g": 3, "loc": "src/g"},
          {"t": "pipe", "p": "/a/b/fifo", "m": 0o640, "u": 4, "g": 4},
          {"t": "link", "p": "/a/b/l1", "m": 0o777, "u": 0, "g": 0, "to": "/a/file"}, {"t": "link", "p": "/l2", "m": 0, "u": 7, "g": 7, "to": "a/file"},
@@ -586,8 +616,8 @@ def hardlink_case(rng, via, comp, nohl=False):
     return case("hardlinks", "hardlinks-link-directive", {"mode": "packfile", "fs": fs, "lines": L, "xa": []}, {"comp": comp, "bs": 4096})
 
 
-def glob_case(rng, comp, bs, variant):
-    src = mixed_fs(rng, rng.randint(10, 25), bs, fancy=0.15, links=False, xattrs=False, root="tree", allow_nl=False)
+def glob_case(rng, comp, bs, variant, links=False):
+    src = mixed_fs(rng, rng.randint(10, 25), bs, fancy=0.15, links=links, xattrs=False, root="tree", allow_nl=False)
     fs = [{"p": "tree", "t": "dir", "m": 0o755}] + [n for n in src if n["p"] != "tree"]
     L = []
     if variant == "all":
@@ -616,9 +646,10 @@ def glob_case(rng, comp, bs, variant):
 
 
 def glob_hardlink_case(rng, comp, variant):
-    fs = [{"p": "tree", "t": "dir", "m": 0o755}, {"p": "tree/sub", "t": "dir", "m": 0o755},
-          {"p": "tree/a", "t": "file", "c": [["t", 100, 1]], "m": 0o644}, {"p": "tree/b", "t": "link", "to": "tree/a"},
-          {"p": "tree/sub/c", "t": "link", "to": "tree/a"}, {"p": "tree/z", "t": "file", "c": [["t", 50, 2]], "m": 0o600},
+    fs = [{"p": "tree", "t": "dir", "m": 0o755, "mt": 50}, {"p": "tree/sub", "t": "dir", "m": 0o755, "mt": 51},
+          {"p": "tree/a", "t": "file", "c": [["t", 100, 1]], "m": 0o644, "mt": 52, "u": 3, "g": 4}, {"p": "tree/b", "t": "link", "to": "tree/a"},
+          {"p": "tree/sub/c", "t": "link", "to": "tree/a"}, {"p": "tree/z", "t": "file", "c": [["t", 50, 2]], "m": 0o600, "mt": 53},
+          {"p": "tree/sub/fifo", "t": "fifo", "m": 0o600, "mt": 54}, {"p": "tree/zfifo2", "t": "link", "to": "tree/sub/fifo"},
           {"p": "other", "t": "dir", "m": 0o755}, {"p": "other/a", "t": "file", "c": [["t", 60, 3]], "m": 0o600}]
     if variant == "prefix":
         L = [{"t": "glob", "p": "/usr/lib", "m": None, "u": None, "g": None, "opts": [], "src": "tree"}]
@@ -629,6 +660,12 @@ def glob_hardlink_case(rng, comp, variant):
         L = [{"t": "glob", "p": "/", "m": None, "u": None, "g": None, "opts": [], "src": "tree"}]
     elif variant == "nohardlinks":
         L = [{"t": "glob", "p": "/usr/lib", "m": None, "u": None, "g": None, "opts": ["-nohardlinks"], "src": "tree"}]
+    elif variant == "name-first-filtered":
+        # the first name of the group (a) does not match: b and sub/c form the group
+        L = [{"t": "glob", "p": "/n", "m": None, "u": None, "g": None, "opts": ["-type", "d"], "src": "tree"},
+             {"t": "glob", "p": "/n", "m": None, "u": None, "g": None, "opts": ["-type", "f", "-name", "[bcz]"], "src": "tree"}]
+    elif variant == "keeptime-attrs":
+        L = [{"t": "glob", "p": "/k", "m": 0o640, "u": 11, "g": 12, "opts": ["-keeptime"], "src": "tree"}]
     else:   # type filter
         L = [{"t": "glob", "p": "/", "m": None, "u": None, "g": None, "opts": ["-type", "d"], "src": "tree"},
              {"t": "glob", "p": "/", "m": None, "u": None, "g": None, "opts": ["-type", "f"], "src": "tree"}]
@@ -641,7 +678,31 @@ def bigsparse_case(rng, comp, bs):
     c = [["t", 1000, 1], ["h", G4 - 1000 - 5], ["r", 10 + bs, 2], ["h", (1 << 30) - 10 - bs - 300 + 5], ["t", 300, 3]]
     fs = [{"p": "huge", "t": "file", "c": c, "m": 0o644, "u": 0, "g": 0, "mt": 1}, {"p": "small", "t": "file", "c": [["t", 10, 4]], "m": 0o644, "mt": 1},
           {"p": "allhole", "t": "file", "c": [["h", G4 + bs + 1]], "m": 0o600, "mt": 2}]
-    return case("bigsparse", "sparse-5GiB-%s-%d" % (comp, bs), {"mode": "packdir", "fs": fs, "xa": []}, {"comp": comp, "bs": bs, "k": True})
+    # (-j: with the default of one worker per core the ASan build spends its time on the pool's mutex: 46 s instead of 5 s per 8 GiB of holes)
+    return case("bigsparse", "sparse-5GiB-%s-%d" % (comp, bs), {"mode": "packdir", "fs": fs, "xa": []}, {"comp": comp, "bs": bs, "k": True, "j": 3})
+
+
+def sparse4g_case(rng, comp, bs=131072):
+    """quick: one file whose size (and whose last block's offset) lies beyond 4 GiB, made of a hole; measured 4 s to pack with
+    128 KiB blocks (24 s with 1 MiB blocks).  rdsquashfs -u writes the zeros out (it never creates holes), which takes minutes:
+    path (e) is not run for this case (thorough runs it on the 5 GiB cases)."""
+    G4 = 1 << 32
+    # exactly 2^32 bytes: the smallest size that does not fit the basic file inode; data before and after the hole
+    c = [["t", 1000, 1], ["h", G4 - 1000 - 15], ["r", 15, 2]]
+    fs = [{"p": "huge", "t": "file", "c": c, "m": 0o644, "u": 3, "g": 4, "mt": 1}, {"p": "small", "t": "file", "c": [["t", 10, 4]], "m": 0o644, "mt": 1}]
+    return case("bigsparse", "sparse-4GiB-quick-%s-%d" % (comp, bs), {"mode": "packdir", "fs": fs, "xa": []}, {"comp": comp, "bs": bs, "k": True, "j": 2},
+                paths="abcd", paths_why="rdsquashfs -u writes holes out as zeros (it never creates sparse files): 4 GiB of writes, minutes")
+
+
+def bigdata_case(rng, bs=1048576):
+    """thorough: the *data area* exceeds 4 GiB (incompressible bytes, lz4 stores them raw): a block start and a fragment block
+    beyond 2^32 (`sqfs_inode_set_file_block_start` promotion), a file of > 4 GiB stored bytes"""
+    G = 1 << 30
+    fs = [{"p": "a_big", "t": "file", "c": [["r", 4 * G + 3 * bs + 11, 1]], "m": 0o644, "mt": 1},
+          {"p": "b_after_4g", "t": "file", "c": [["r", 2 * bs + 5, 2]], "m": 0o600, "mt": 2},
+          {"p": "c_tail_only", "t": "file", "c": [["r", 777, 3]], "m": 0o600, "mt": 3},
+          {"p": "d_dup_of_b", "t": "file", "c": [["r", 2 * bs + 5, 2]], "m": 0o600, "mt": 4}]
+    return case("bigdata", "data-area-4GiB-lz4-%d" % bs, {"mode": "packdir", "fs": fs, "xa": []}, {"comp": "lz4", "bs": bs, "k": True, "j": 4})
 
 
 def bigdelta_case(rng, comp):
@@ -741,9 +802,18 @@ def refusal_cases(rng, thorough):
     pf("block-size-3000", [P("/x")], opts={"comp": "gzip", "bs": 3000})
     pf("block-size-2M", [P("/x")], opts={"comp": "gzip", "bs": 2 << 20})
     pf("block-size-2048", [P("/x")], opts={"comp": "gzip", "bs": 2048})
-    # ids: 65535 distinct values fit, 65536 do not (thorough: the packer's id search is quadratic under ASan)
+    # ids: 65535 distinct values fit, 65536 do not.  Measured (ASan, lz4, idle): 4 s to pack, 10-15 s with all read-back paths
+    def idc(n, name, **kw):
+        c = ids_limit_case(rng, n, **kw); c["kind"], c["name"] = "refusal", name; out.append(c)
+    idc(65535, "ids-65535-accepted")
+    idc(65536, "ids-65536")                        # the 65536th id is the gid of the inode that is serialised last
+    c = ids_limit_case(rng, 65536, first=1)        # ids 1..65536 and 0 for the directories: the 65536th id is a uid
+    c["kind"], c["name"] = "refusal", "ids-65537"; c["opts"]["d"] = None; out.append(c)
+    idc(40000, "ids-40000-wide-accepted", first=70000, stride=107371)
+    # 65535 ids on the pipes, the 65536th is the *uid* of the implicit directories and the root (they are serialised after all pipes;
+    # their gid is an old id): only the check behind the uid lookup in serialize_tree_node can refuse this one
+    c = ids_limit_case(rng, 65535); c["kind"], c["name"] = "refusal", "ids-65536-uid-of-directories"; c["opts"]["d"] = {"uid": 2000000000, "gid": 0}; out.append(c)
     if thorough:
-        c = ids_case(rng, 65535); c["kind"], c["name"] = "refusal", "ids-65535-accepted"; out.append(c)
-        c = ids_case(rng, 65536); c["kind"], c["name"] = "refusal", "ids-65536"; out.append(c)
-        c = ids_case(rng, 40000, base=70000, split_gid=True); c["kind"], c["name"] = "refusal", "ids-40001-accepted"; out.append(c)
+        c = ids_case(rng, 65535); c["kind"], c["name"] = "refusal", "ids-65535-one-directory-accepted"; out.append(c)
+        c = ids_case(rng, 65536); c["kind"], c["name"] = "refusal", "ids-65536-one-directory"; out.append(c)
     return out
